@@ -555,6 +555,8 @@ class Registry:
                 return VOpaque(p.fresh_val(base))
             if n == 'NoneT':
                 return VNone
+            if n == 'AbsList':
+                return VAbsList('list')
             if n == 'Float':
                 return VFloat(z3.Real(p.fresh_name(base)))
             if n in ALIASES:
